@@ -159,10 +159,19 @@ func e1(w *World, r *Report) {
 		sn := w.findCall(add, so+".SetNonce("+ac+".Nonce)")
 		sb := w.findCall(add, so+".SetBalance("+ac+".Balance.ToBig())")
 		var mu *ssa.MapUpdate
-		for _, b := range add.Blocks {
-			for _, in := range b.Instrs {
-				if m, ok := in.(*ssa.MapUpdate); ok && w.Canon(m.Map) == "recv.accessedObjAddrs" && w.Canon(m.Key) == "p0" && w.Canon(m.Value) == "(recv.snapshot + 1)" {
-					mu = m
+		// in addAccessedObjAddr or in a helper of the record it hands the address and the mark to
+		for _, g := range w.withModuleCallees(add, 1) {
+			for _, b := range g.Blocks {
+				for _, in := range b.Instrs {
+					m, ok := in.(*ssa.MapUpdate)
+					if !ok {
+						continue
+					}
+					if w.inCallerTerms(add, g, func() bool {
+						return w.Canon(m.Map) == "recv.accessedObjAddrs" && w.Canon(m.Key) == "p0" && w.Canon(m.Value) == "(recv.snapshot + 1)"
+					}) {
+						mu = m
+					}
 				}
 			}
 		}
@@ -381,6 +390,48 @@ func (w *World) revertsExactly(ra *ssa.Function) (bool, string) {
 		return false, "unexpected signature"
 	}
 	target := ssa.Value(ra.Params[1])
+	// the walk over the recorded addresses may sit in a helper that is handed the
+	// record (as receiver or argument) and the target snapshot: analyse it there,
+	// in the caller's terms
+	hasRange := func(f *ssa.Function) bool {
+		for _, b := range f.Blocks {
+			for _, in := range b.Instrs {
+				if _, ok := in.(*ssa.Range); ok {
+					return true
+				}
+			}
+		}
+		return false
+	}
+	if !hasRange(ra) {
+		for _, c := range CallsIn(ra) {
+			g := c.Common().StaticCallee()
+			if g == nil || !w.InModule(g) || g.Blocks == nil || !hasRange(g) || len(g.Params) != len(c.Common().Args) {
+				continue
+			}
+			ti := -1
+			for i, a := range c.Common().Args {
+				if stripConv(a) == target || (i > 0 && w.Canon(a) == w.Canon(target)) {
+					ti = i
+				}
+			}
+			if ti < 0 {
+				continue
+			}
+			env := map[*ssa.Parameter]string{}
+			for i, p := range g.Params {
+				env[p] = w.Canon(c.Common().Args[i])
+			}
+			w.inlineEnv = append(w.inlineEnv, env)
+			ok, why := w.revertsExactlyIn(g, g.Params[ti])
+			w.inlineEnv = w.inlineEnv[:len(w.inlineEnv)-1]
+			return ok, why
+		}
+	}
+	return w.revertsExactlyIn(ra, target)
+}
+
+func (w *World) revertsExactlyIn(ra *ssa.Function, target ssa.Value) (bool, string) {
 	isMark := func(v ssa.Value) bool {
 		ex, ok := stripConv(v).(*ssa.Extract)
 		if !ok || ex.Index != 2 {
